@@ -41,7 +41,8 @@ TRACE_PLANS = {
             ("synth:cyclic,midconflict,base,excl,locks,unknown", 120, 2500, "", False)],
     "C05": [("solve:midconflict,conflict,direct", 250, 4000, "", True),
             ("solve:base,cyclic", 200, 3000, "hints", True),
-            ("solve:selfreq,hintcons", 400, 5000, "", True)],
+            ("solve:selfreq,hintcons", 400, 5000, "", True),
+            ("solve:softconflict,softeager", 200, 3000, "", True)],
     "C07": [("solve:clean", 500, 8000, "hints,async,perm", True),
             ("solve:unionoverlap", 200, 3000, "hints,async", True),
             ("solve:manycands", 60, 1200, "hints", True)],
@@ -114,11 +115,14 @@ ALSO = {
     "C01": ["C15_PairNotExcluded"],
     # an implied assignment whose reason is not unit survives the undo of what justified it:
     # the operational form of "dependencies of abandoned candidates are not installed"
-    "C05": ["C02_ReasonIsUnit", "C02_ReasonLogged", "C04_Panic", "C04_Timeout", "C04_Crash"],
+    # ... and a learnt clause that does not follow from the database keeps forcing what an
+    # abandoned branch (or a rejected soft requirement) needed
+    "C05": ["C02_ReasonIsUnit", "C02_ReasonLogged", "C02_LearntRUP", "C03_LearntFromWhy", "C04_Panic", "C04_Timeout",
+            "C04_Crash"],
     "C06": ["C02_VerdictDiffers"],
     "C15": ["C02_UnsatButSatisfiable", "C01_V_OnePerName", "C01_V_RootReq", "C01_V_Req", "C01_DupInSolution", "C01_NotASolvable",
             "C01_DbNotSatisfied", "C04_Panic", "C04_Timeout", "C04_Crash"],
-    "C14": ["C04_Panic", "C04_Timeout", "C04_Crash", "C02_UnsatButSatisfiable", "C01_V_RootReq", "C01_V_RootCons", "C01_V_Known", "C01_V_Req",
+    "C14": ["C04_Panic", "C04_Timeout", "C04_Crash", "C02_UnsatButSatisfiable", "C15_PairNotExcluded", "C01_EncodingIncomplete", "C01_V_RootReq", "C01_V_RootCons", "C01_V_Known", "C01_V_Req",
             "C01_V_Cons", "C01_V_Excluded", "C01_V_Locked", "C01_V_OnePerName", "C01_DupInSolution", "C01_NotASolvable",
             "C01_DbNotSatisfied"],
 }
